@@ -457,7 +457,9 @@ class Engine:
                     cls.add("C04")
                 diverge(cls, f"frame:{op.kind}-on-c{op.ctx}-changed-c{m.idx}:extra={extra}:missing={missing}:changed={changed}", detail)
             if op.kind in ("add", "fac"):
-                diverge({"C03"}, f"{op.kind}:{op.variant}:own-view:extra={extra}:missing={missing}:changed={changed}", detail)
+                # the context now shows something that was never (successfully) added to it, or lacks what was: also not "exactly ... plus
+                # whatever has since been added" (C02), besides the atomicity clause (C03)
+                diverge({"C03", "C02"}, f"{op.kind}:{op.variant}:own-view:extra={extra}:missing={missing}:changed={changed}", detail)
             if op.kind == "look":
                 cls = {"C04"}
                 if changed:
